@@ -1059,7 +1059,7 @@ def g9(ctx, F, D):
               found=bad[:4] or "%d (square, step) cases" % n_)
     # the other constructors the generators and the importer use: `new` accepts exactly the 64 squares, the unchecked step gives the
     # same square as the checked one wherever that is on the board
-    for name, label in (("new", "Position::new"), ("add_unsafe", "Position::add_unsafe")):
+    for name, label in (("new", "Position::new"), ("new_assert", "Position::new_assert"), ("add_unsafe", "Position::add_unsafe")):
         if "chess::position::Position::" + name not in F.fns:
             continue
         pf = F.fn("chess::position::Position::" + name)
@@ -1072,6 +1072,10 @@ def g9(ctx, F, D):
                     want = ("ctor", "std::prelude::v1::Some", (("pos", r, c),)) if 0 <= r < 8 and 0 <= c < 8 else ("variant", "std::prelude::v1::None")
                     if v != want:
                         bad.append((args, fmtn(v, 60)))
+                elif name == "new_assert":
+                    r, c = args
+                    if 0 <= r < 8 and 0 <= c < 8 and v != ("pos", r, c) and [x for x in hir.subterms(v) if x[:1] == ("pos",)] != [("pos", r, c)]:
+                        bad.append((args, fmtn(v, 60)))       # (outside the board it panics: C15's concern)
                 else:
                     r, c, dr, dc = args
                     if 0 <= r + dr < 8 and 0 <= c + dc < 8:
